@@ -511,7 +511,10 @@ def _sccs(nodes, succ):
 class Facts:
     def __init__(self, path):
         with open(path) as f:
-            self.j = json.load(f)
+            text = f.read()
+        import canon
+        text, self.renamed = canon.canonicalise(text)      # {actual path: canonical path} (empty on the pinned layout)
+        self.j = json.loads(text)
         self.crate = self.j['crate']
         self.bodies = [Body(b, self) for b in self.j['bodies']]
         self.by_id = {b.id: b for b in self.bodies}
